@@ -24,6 +24,7 @@ type aOp struct {
 	Op        string `json:"op"`
 	Ok        bool   `json:"ok"`
 	Idx       int    `json:"idx"`
+	T         int    `json:"t"`
 	Kind      string `json:"kind"`
 	FromCache bool   `json:"fromcache"`
 	Refreshed bool   `json:"refreshed"`
@@ -40,8 +41,11 @@ func randBits(rng *mrand.Rand, bits uint) *big.Int {
 }
 
 // issuer side of one accumulator chain
+const timeBase = 1_700_000_000
+
 type chain struct {
 	kp     hx.KeyPair
+	t      int // abstract time of the current signed accumulator
 	accs   []*revocation.Accumulator
 	saccs  []*revocation.SignedAccumulator
 	events []*revocation.Event
@@ -56,7 +60,21 @@ func newChain(kp hx.KeyPair) *chain {
 	if err != nil {
 		hx.Fatal("UnmarshalVerify: %v", err)
 	}
-	return &chain{kp: kp, accs: []*revocation.Accumulator{acc}, saccs: []*revocation.SignedAccumulator{u.SignedAccumulator}, events: u.Events}
+	c := &chain{kp: kp, accs: []*revocation.Accumulator{acc}, saccs: []*revocation.SignedAccumulator{u.SignedAccumulator}, events: u.Events}
+	c.resignAt(0)
+	return c
+}
+
+// resignAt signs the current accumulator again with the given abstract time.
+func (c *chain) resignAt(t int) {
+	n := len(c.accs) - 1
+	a := *c.accs[n]
+	a.Time = timeBase + int64(t)
+	s, err := a.Sign(c.kp.SK)
+	if err != nil {
+		hx.Fatal("Sign: %v", err)
+	}
+	c.accs[n], c.saccs[n], c.t = &a, s, t
 }
 
 func (c *chain) revoke(e *big.Int) {
@@ -65,6 +83,8 @@ func (c *chain) revoke(e *big.Int) {
 	if err != nil {
 		hx.Fatal("Remove: %v", err)
 	}
+	c.t++
+	acc.Time = timeBase + int64(c.t)
 	sacc, err := acc.Sign(c.kp.SK)
 	if err != nil {
 		hx.Fatal("Sign: %v", err)
@@ -166,6 +186,15 @@ func main() {
 	res.Write(a.Out)
 }
 
+func embeddedTime(kp hx.KeyPair, p *gabi.ProofD) int {
+	s := &revocation.SignedAccumulator{Data: p.NonRevocationProof.SignedAccumulator.Data, PKCounter: p.NonRevocationProof.SignedAccumulator.PKCounter}
+	acc, err := s.UnmarshalVerify(kp.PK)
+	if err != nil {
+		return -1
+	}
+	return int(acc.Time - timeBase)
+}
+
 func embeddedIndex(kp hx.KeyPair, p *gabi.ProofD) int {
 	s := &revocation.SignedAccumulator{Data: p.NonRevocationProof.SignedAccumulator.Data, PKCounter: p.NonRevocationProof.SignedAccumulator.PKCounter}
 	acc, err := s.UnmarshalVerify(kp.PK)
@@ -206,6 +235,8 @@ func runHistory(kp hx.KeyPair, h aHist, rng *mrand.Rand, res *hx.Result) {
 				}
 			case "revokeother":
 				c.revoke(freshPrime())
+			case "resign":
+				c.resignAt(c.t + 1)
 			case "revokeself":
 				c.revoke(cred.NonRevocationWitness.E)
 			case "update":
@@ -253,6 +284,10 @@ func runHistory(kp hx.KeyPair, h aHist, rng *mrand.Rand, res *hx.Result) {
 				}
 				if got := embeddedIndex(kp, p); got != op.Idx {
 					res.Violation("proof-reads-wrong-accumulator", fmt.Sprintf("accepted proof embeds accumulator index %d, it was made against %d", got, op.Idx), det)
+					violated = true
+				}
+				if got := embeddedTime(kp, p); got != op.T {
+					res.Violation("proof-reads-wrong-accumulator", fmt.Sprintf("accepted proof embeds an accumulator signed at time %d, the witness it was made from holds the one signed at %d", got, op.T), det)
 					violated = true
 				}
 				res.Count(fmt.Sprintf("prove:fromcache=%v:refreshed=%v", op.FromCache, op.Refreshed))
